@@ -5,7 +5,6 @@
 -/
 import CkptGen.RefineSeqRevolve
 import CkptGen.RefineSeqDisk
-import CkptGen.RefineSeqHRevolve
 
 namespace Ckpt.Py
 open Ckpt Ckpt.Ops
